@@ -221,7 +221,7 @@ var propFuncs = map[string][]string{
 		`^\(\*http2\.Server\)\.(ServeConn|serveConn|afterFunc|newTimer|now|markNewGoroutine)$`, `^\(\*http2\.stream\)\.(onReadTimeout|onWriteTimeout)$`, `^\(http2\.timeTimer\)`, `^\(\*http2\.responseWriter\)\.(SetReadDeadline|SetWriteDeadline|CloseNotify|handlerDone)`, `^http2\.(h1ServerKeepAlivesDisabled|configFromServer|fillNetHTTPServerConfig|setConfigDefaults|setDefault)`,
 		// the per-byte write timeout every frame write goes through
 		`^http2\.writeWithByteTimeout$`, `^\(\*http2\.bufferedWriter(TimeoutWriter)?\)`, `^http2\.ConfigureServer$`},
-	"C12": {`^\(\*http2\.(outflow|inflow)\)`, `^http2\.(takeInflows|mustUint31)$`, `^\(http2\.FrameWriteRequest\)\.Consume$`, `^\(\*http2\.writeQueue\)\.consume$`,
+	"C12": {`^\(\*http2\.(outflow|inflow)\)`, `^http2\.(takeInflows|mustUint31|parseWindowUpdateFrame|parseDataFrame)$`, `^\(http2\.Setting\)\.Valid$`, `^\(\*http2\.Framer\)\.(WriteWindowUpdate|WriteData|WriteDataPadded|startWriteDataPadded)$`, `^\(http2\.FrameWriteRequest\)\.Consume$`, `^\(\*http2\.writeQueue\)\.consume$`,
 		`^\(\*http2\.serverConn\)\.(processData|processWindowUpdate|processSettingInitialWindowSize|processSetting|processSettings|sendWindowUpdate|sendWindowUpdate32|noteBodyRead|noteBodyReadFromHandler|closeStream|newStream|serve|scheduleFrameWrite|startFrameWrite|wroteFrame|writeFrame|resetStream)$`, `^\(\*http2\.Server\)\.serveConn$`,
 		`^\(\*http2\.requestBody\)\.Read$`, `^\(\*http2\.clientStream\)\.(awaitFlowControl|writeRequestBody)$`, `^\(\*http2\.clientConnReadLoop\)\.(processData|processWindowUpdate|processSettingsNoWrite)`, `^\(http2\.transportResponseBody\)`, `^\(\*http2\.ClientConn\)\.addStreamLocked$`, `^\(\*http2\.Transport\)\.newClientConn$`},
 	"C13": {`^\(\*http2\.serverConn\)\.(processFrameFromReader|processHeaders|processData|processResetStream|processPriority|processSettings|processSetting|processSettingInitialWindowSize|processPing|processGoAway|processWindowUpdate|state|checkPriority|scheduleHandler|handlerDone|newStream|closeStream|goAway|resetStream|newWriterAndRequest|newWriterAndRequestNoBody|scheduleFrameWrite|upgradeRequest|startPush|countError|curOpenStreams)`,
